@@ -48,6 +48,10 @@ class Body:
         self.fn, self.receiver, self.in_module_cls = fn, receiver, in_module_cls
         self.vars: Dict[str, int] = {}
         self.bound = set()
+        self.int_vars = set()          # locals known to hold an int (len(...), i + 1)
+        self.tagdicts = set()          # locals holding the attribute dict of an <a> tag under construction
+        self.helpers: Dict[str, ast.FunctionDef] = {}     # module-level pure helpers that may be inlined
+        self.chain_methods = set()     # generator methods found (on fixtures) to yield the ancestor-or-self chain
         for p in params:
             self.vars[p] = len(self.vars)
             self.bound.add(p)
@@ -61,7 +65,44 @@ class Body:
         return isinstance(e, ast.Name) and e.id == self.receiver
 
     # ------------------------------------------------------------------ expressions
+    def is_int(self, e: ast.expr) -> bool:
+        if isinstance(e, ast.Constant) and isinstance(e.value, int) and not isinstance(e.value, bool):
+            return True
+        if isinstance(e, ast.Name) and e.id in self.int_vars:
+            return True
+        if isinstance(e, ast.Call) and isinstance(e.func, ast.Name) and e.func.id == 'len':
+            return True
+        if isinstance(e, ast.BinOp) and isinstance(e.op, ast.Add):
+            return self.is_int(e.left) or self.is_int(e.right)
+        return False
+
     def expr(self, e: ast.expr) -> str:
+        if isinstance(e, ast.Constant) and isinstance(e.value, int) and not isinstance(e.value, bool):
+            if e.value < 0 or e.value > 64:
+                raise bad('integer constant', e)
+            return 'EConst (VInt %d)' % e.value
+        if isinstance(e, ast.IfExp):
+            return 'ECond (%s) (%s) (%s)' % (self.expr(e.test), self.expr(e.body), self.expr(e.orelse))
+        if isinstance(e, ast.Call) and isinstance(e.func, ast.Name) and e.func.id == 'len' and len(e.args) == 1 and not e.keywords:
+            return 'ELen (%s)' % self.expr(e.args[0])
+        if isinstance(e, ast.BinOp) and isinstance(e.op, ast.Add) and self.is_int(e):
+            return 'EAddI (%s) (%s)' % (self.expr(e.left), self.expr(e.right))
+        if isinstance(e, ast.Subscript) and isinstance(e.slice, ast.Slice) and e.slice.step is None:
+            lo = 'Some (%s)' % self.expr(e.slice.lower) if e.slice.lower is not None else 'None'
+            hi = 'Some (%s)' % self.expr(e.slice.upper) if e.slice.upper is not None else 'None'
+            for b in (e.slice.lower, e.slice.upper):
+                if b is not None and not self.is_int(b):
+                    raise bad('slice bound that is not known to be a non-negative int', e)
+            return 'ESlice (%s) (%s) (%s)' % (self.expr(e.value), lo, hi)
+        if isinstance(e, ast.Call) and isinstance(e.func, ast.Name) and e.func.id in self.helpers and not e.keywords:
+            return self.expr(inline_helper(self.helpers[e.func.id], list(e.args)))
+        if isinstance(e, ast.Call) and isinstance(e.func, ast.Attribute) and isinstance(e.func.value, ast.Name) \
+                and e.func.value.id == 'tags' and e.func.attr == 'a' and len(e.args) == 1 and len(e.keywords) == 1 \
+                and e.keywords[0].arg is None and isinstance(e.keywords[0].value, ast.Name) and e.keywords[0].value.id in self.tagdicts:
+            d = e.keywords[0].value.id
+            return 'ETagLabel (EVar %d) (%s)' % (self.var(d), self.expr(e.args[0]))
+        if isinstance(e, ast.Call) and isinstance(e.func, ast.Attribute) and e.func.attr in self.chain_methods and not e.args and not e.keywords:
+            return 'EChain (%s)' % self.expr(e.func.value)
         if isinstance(e, ast.Constant):
             if e.value is None:
                 return 'EConst VNone'
@@ -159,10 +200,6 @@ class Body:
                 if i < len(args):
                     parts.append(self.expr(args[i]))
             return 'EConcat [%s]' % '; '.join(parts)
-        if isinstance(e, ast.Subscript) and isinstance(e.slice, ast.Slice) and e.slice.upper is None and e.slice.step is None \
-                and isinstance(e.slice.lower, ast.Call) and isinstance(e.slice.lower.func, ast.Name) and e.slice.lower.func.id == 'len' \
-                and len(e.slice.lower.args) == 1:
-            return 'ESkipLen (%s) (%s)' % (self.expr(e.value), self.expr(e.slice.lower.args[0]))
         if isinstance(e, ast.List):
             return 'EListLit [%s]' % '; '.join(self.expr(x) for x in e.elts)
         if isinstance(e, ast.Compare) and len(e.ops) == 1:
@@ -181,8 +218,6 @@ class Body:
             for p in reversed(parts[:-1]):
                 r = '%s (%s) (%s)' % (con, p, r)
             return r
-        if isinstance(e, ast.IfExp):
-            raise bad('conditional expression (write it as an if statement)', e)
         raise bad('expression %s' % type(e).__name__, e)
 
     # ------------------------------------------------------------------ statements
@@ -202,10 +237,40 @@ class Body:
             return None
         if isinstance(s, ast.AnnAssign) and s.value is not None and isinstance(s.target, ast.Name):
             s = ast.copy_location(ast.Assign(targets=[s.target], value=s.value), s)
+        if isinstance(s, ast.Assign) and len(s.targets) == 1 and isinstance(s.targets[0], ast.Subscript) \
+                and isinstance(s.targets[0].value, ast.Name) and s.targets[0].value.id in self.tagdicts \
+                and isinstance(s.targets[0].slice, ast.Constant) and s.targets[0].slice.value == 'title':
+            d = s.targets[0].value.id
+            return 'SAssign %d (ETagTitle (EVar %d) (%s))' % (self.var(d), self.var(d), self.expr(s.value))
+        if isinstance(s, ast.Assign) and len(s.targets) == 1 and isinstance(s.targets[0], ast.Name) and isinstance(s.value, ast.Dict):
+            keys = [k.value if isinstance(k, ast.Constant) else None for k in s.value.keys]
+            kv = dict(zip(keys, s.value.values))
+            if set(keys) != {'href', 'class_'} or not (isinstance(kv['class_'], ast.Constant) and kv['class_'].value == 'internal-link'):
+                raise bad("dict literal that is not {'href': ..., 'class_': 'internal-link'}", s)
+            name = s.targets[0].id
+            v = self.expr(kv['href'])
+            self.bound.add(name)
+            self.tagdicts.add(name)
+            return 'SAssign %d (ETagA (EConst VNone) (%s))' % (self.var(name), v)
+        if isinstance(s, ast.For):
+            if s.orelse or not isinstance(s.target, ast.Name):
+                raise bad('for loop', s)
+            it = self.expr(s.iter)
+            if not it.startswith('EChain'):
+                raise bad('for loop over something other than an ancestor chain', s)
+            before = set(self.bound)
+            self.bound.add(s.target.id)
+            body = self.block(s.body)
+            self.bound = before | {s.target.id}
+            return 'SFor %d (%s) (%s)' % (self.var(s.target.id), it, body)
         if isinstance(s, ast.Assign):
             if len(s.targets) != 1 or not isinstance(s.targets[0], ast.Name):
                 raise bad('assignment target', s)
             name = s.targets[0].id
+            if self.is_int(s.value):
+                self.int_vars.add(name)
+            else:
+                self.int_vars.discard(name)
             if name == self.receiver:
                 raise bad('assignment to the receiver', s)
             v = self.expr(s.value)
@@ -243,6 +308,89 @@ class Body:
                 return 'SAssign %d (ETagTitle (EVar %d) (%s))' % (self.var(f.id), self.var(f.id), self.expr(c.keywords[0].value))
             raise bad('expression statement', s)
         raise bad('statement %s' % type(s).__name__, s)
+
+
+def inline_helper(fn: ast.FunctionDef, args: List[ast.expr]) -> ast.expr:
+    """A module-level PURE helper whose body is straight-line assignments to locals and an if / return tree is inlined
+    as one expression: parameters and locals are substituted, `if c: return a` + rest becomes `a if c else <rest>`."""
+    import copy
+    params = [a.arg for a in fn.args.args]
+    if fn.args.vararg or fn.args.kwarg or fn.args.kwonlyargs or fn.args.posonlyargs or fn.args.defaults or len(params) != len(args) or fn.decorator_list:
+        raise bad('helper %s: parameter list' % fn.name, fn)
+
+    class Sub(ast.NodeTransformer):
+        def __init__(self, env: Dict[str, ast.expr]):
+            self.env = env
+
+        def visit_Name(self, n: ast.Name) -> Any:
+            if isinstance(n.ctx, ast.Load) and n.id in self.env:
+                return copy.deepcopy(self.env[n.id])
+            return n
+
+    def sub(e: ast.expr, env: Dict[str, ast.expr]) -> ast.expr:
+        return ast.fix_missing_locations(Sub(env).visit(copy.deepcopy(e)))
+
+    def returns(stmts: List[ast.stmt]) -> bool:
+        return bool(stmts) and (isinstance(stmts[-1], ast.Return) or
+                                (isinstance(stmts[-1], ast.If) and bool(stmts[-1].orelse) and returns(stmts[-1].body) and returns(stmts[-1].orelse)))
+
+    def tree(stmts: List[ast.stmt], env: Dict[str, ast.expr]) -> ast.expr:
+        if not stmts:
+            raise bad('helper %s: a path without return' % fn.name, fn)
+        s, rest = stmts[0], stmts[1:]
+        if isinstance(s, ast.Expr) and isinstance(s.value, ast.Constant):
+            return tree(rest, env)
+        if isinstance(s, ast.Return) and s.value is not None:
+            return sub(s.value, env)
+        if isinstance(s, ast.AnnAssign) and isinstance(s.target, ast.Name) and s.value is not None:
+            return tree(rest, dict(env, **{s.target.id: sub(s.value, env)}))
+        if isinstance(s, ast.Assign) and len(s.targets) == 1 and isinstance(s.targets[0], ast.Name):
+            return tree(rest, dict(env, **{s.targets[0].id: sub(s.value, env)}))
+        if isinstance(s, ast.If):
+            if returns(s.body):
+                return ast.IfExp(test=sub(s.test, env), body=tree(list(s.body), env), orelse=tree(list(s.orelse) + rest, env))
+            if s.orelse and returns(s.orelse):
+                return ast.IfExp(test=sub(s.test, env), body=tree(list(s.body) + rest, env), orelse=tree(list(s.orelse), env))
+        raise bad('helper %s: statement that is not an assignment to a local or an if / return tree' % fn.name, s)
+    return ast.fix_missing_locations(tree(strip_doc(list(fn.body)), dict(zip(params, args))))
+
+
+def chain_methods_of(mt: ast.Module) -> List[str]:
+    """generator methods of Documentable (no parameters) that, RUN on the fixture objects, yield the object, its parent,
+    the parent of that, ... up to the root"""
+    cs = [n for n in mt.body if isinstance(n, ast.ClassDef) and n.name == 'Documentable']
+    cands = [f.name for f in cs[0].body if isinstance(f, ast.FunctionDef) and len(f.args.args) == 1 and not f.decorator_list
+             and any(isinstance(x, (ast.Yield, ast.YieldFrom)) for x in ast.walk(f))] if cs else []
+    if not cands:
+        return []
+    import importlib.util
+    spec = importlib.util.spec_from_file_location('gen_listings_fx', Path(__file__).resolve().parent / 'gen_listings.py')
+    gl = importlib.util.module_from_spec(spec)
+    spec.loader.exec_module(gl)       # type: ignore
+    out = []
+    for name in cands:
+        ok = True
+        for rules in gl.RULESETS[:2]:
+            s = gl.build_system(rules, True)
+            for o in s.allobjects.values():
+                want = []
+                x = o
+                while x is not None:
+                    want.append(x)
+                    x = x.parent
+                try:
+                    got = list(getattr(o, name)())
+                except Exception:
+                    ok = False
+                    break
+                if len(got) != len(want) or any(a is not b for a, b in zip(got, want)):
+                    ok = False
+                    break
+            if not ok:
+                break
+        if ok:
+            out.append(name)
+    return out
 
 
 def find_method(tree: ast.Module, cls: str, name: str) -> ast.FunctionDef:
@@ -306,6 +454,7 @@ def generate() -> Dict[str, str]:
     lt = ast.parse(Path(inspect.getsourcefile(linker)).read_text(encoding='utf-8'))
     out = []
     table = []
+    chains = chain_methods_of(mt)
 
     def method(cls: str, name: str, fname: str, prop: bool) -> None:
         fn = find_method(mt, cls, name)
@@ -314,6 +463,7 @@ def generate() -> Dict[str, str]:
         if len(params) != 1:
             raise bad('%s.%s takes parameters' % (cls, name), fn)
         b = Body(fn, params[0], [], cls == 'Module')
+        b.chain_methods = set(chains)
         code = b.block(strip_doc(fn.body))
         dn = 'code_%s_%s' % (cls, name)
         out.append('(* pydoctor/model.py %s.%s *)\nDefinition %s : istmt :=\n  %s.\n' % (cls, name, dn, code))
@@ -334,6 +484,7 @@ def generate() -> Dict[str, str]:
     if len(params) != 3 or len(fn.args.defaults) != 1 or not (isinstance(fn.args.defaults[0], ast.Constant) and fn.args.defaults[0].value is None):
         raise bad('taglink(o, page_url, label=None) parameter list', fn)
     b = Body(fn, params[0], params[1:], False)
+    b.helpers = {n.name: n for n in lt.body if isinstance(n, ast.FunctionDef) and n.name != 'taglink'}
     code = b.block(strip_doc(fn.body))
     out.append('(* pydoctor/linker.py taglink(%s): parameters %s = variable 0, %s = variable 1 *)\nDefinition code_taglink : istmt :=\n  %s.\n'
                % (', '.join(params), params[1], params[2], code))
